@@ -1,6 +1,9 @@
 package dna
 
 import (
+	"fmt"
+	"math"
+
 	"gonum.org/v1/gonum/mat"
 )
 
@@ -12,4 +15,38 @@ type DNAModel interface {
 	Eigens() (val []float64, leftvectors, rightvectors *mat.Dense, err error)
 	Analytical() bool                // returns true if analytical pij computation is possible and implemented
 	Pij(i, j int, l float64) float64 // Returns -1 if not possible to compute it anatically without eigens (or not yet implemented)
+}
+
+// reversibleEigens computes eigen values, left and right eigen vectors of the rate
+// matrix q of a time reversible model having stationary frequencies pi.
+//
+// diag(sqrt(pi)) * q * diag(1/sqrt(pi)) is symmetric for a reversible model. Its
+// decomposition always gives real eigen values and linearly independent eigen vectors,
+// even when an eigen value is repeated (always the case for F81, and for TN93 or GTR
+// with JC or F81 like parameters), which a general decomposition does not guarantee.
+func reversibleEigens(q *mat.Dense, pi []float64) (val []float64, leftvectors, rightvectors *mat.Dense, err error) {
+	var v mat.Dense
+	n := len(pi)
+	sym := mat.NewSymDense(n, nil)
+	for i := 0; i < n; i++ {
+		for j := i; j < n; j++ {
+			sym.SetSym(i, j, q.At(i, j)*math.Sqrt(pi[i]/pi[j]))
+		}
+	}
+	eigen := &mat.EigenSym{}
+	if ok := eigen.Factorize(sym, true); !ok {
+		err = fmt.Errorf("Problem during matrix decomposition")
+		return
+	}
+	val = eigen.Values(nil)
+	eigen.VectorsTo(&v)
+	rightvectors = mat.NewDense(n, n, nil)
+	leftvectors = mat.NewDense(n, n, nil)
+	for i := 0; i < n; i++ {
+		for j := 0; j < n; j++ {
+			rightvectors.Set(i, j, v.At(i, j)/math.Sqrt(pi[i]))
+			leftvectors.Set(j, i, v.At(i, j)*math.Sqrt(pi[i]))
+		}
+	}
+	return
 }
